@@ -61,3 +61,30 @@ package fsloop
 //@   trace (*Pool).Wait as DRAINED
 //@   trace (*Lifecycle).NextStep as CLOSESTEP
 //@   trace_ensures true : ^DRAINED CLOSESTEP
+
+// Run gives the loop a lifecycle with a context; only this package assigns the field
+//@ type Loop
+//@   field lifecycle stable
+//@   field consumerPool stable
+//@ func (*Loop).Run [C04]
+//@   layers contract
+//@   requires loop != nil && loop.loopData != nil
+//@   modifies *
+//@   ensures loop.lifecycle != nil
+//@   ensures loop.lifecycle.ctx != nil
+//@   ensures loop.consumerPool != nil
+//@   loop 1 invariant loop == old(loop) && loop.lifecycle != nil && loop.lifecycle.ctx != nil && loop.consumerPool != nil
+// Wait changes nothing itself; what the walking goroutines report meanwhile is in the frame
+//@ func (*Loop).Wait [C04]
+//@   layers contract
+//@   requires loop != nil && loop.consumerPool != nil
+//@   modifies jobsync.Lifecycle.errors, E:error
+
+// the loop's error list is the lifecycle's
+//@ func (*Loop).Errors [C04]
+//@   layers contract trace
+//@   requires loop != nil && loop.lifecycle != nil && loop.lifecycle.ctx != nil
+//@   trace (*Lifecycle).Errors as LERRS bind le
+//@   at_call (*Lifecycle).Errors requires $0 == loop.lifecycle
+//@   trace_ensures true : ^LERRS $
+//@   ensures result == le
